@@ -305,6 +305,13 @@ func genC05(g *Rng, tier string, emit func(Op)) {
 			if eIn.Cmp(end) <= 0 {
 				if f := forgeSig(kp, ms, eIn, v, ksP); f != nil {
 					emit(sigOp(kp.id, f, ms, "with-keyshare", "accept"))
+					// ... and stays valid under (repeated) randomisation, contribution included
+					fr := f
+					for k := 0; k < 3 && fr != nil; k++ {
+						if fr, _ = fr.Randomize(pk); fr != nil {
+							emit(sigOp(kp.id, fr, ms, "with-keyshare-randomized", "accept"))
+						}
+					}
 					noKs := *f
 					noKs.KeyshareP = nil
 					emit(sigOp(kp.id, &noKs, ms, "keyshare-dropped", "reject"))
